@@ -9,7 +9,10 @@
 (* chunk partially (part = ~enforce) except in S13Confs.                    *)
 EXTENDS BlobPut
 
-Decls == {"none", "right", "wrongdig", "sizeplus", "sizeminus", "digonly", "sizeonly"}
+Decls == {"none", "right", "wrongdig", "sizeplus", "sizeminus", "digonly", "sizeonly",
+          "sizeonlyplus", "sizeonlyminus", "prefix"}
+Minus == {"sizeminus", "sizeonlyminus", "prefix"}          \* declared size = length - 1, kept > 0
+NoDigest == {"none", "sizeonly", "sizeonlyplus", "sizeonlyminus"}
 MinsQ == {<<0, FALSE>>, <<2, FALSE>>, <<2, TRUE>>}
 MinsT == {<<0, FALSE>>, <<2, FALSE>>, <<2, TRUE>>, <<3, FALSE>>, <<3, TRUE>>}
 
@@ -17,13 +20,13 @@ Reg(lens, chunks, bmaxs, mins, seeks, decls, exs, locs) ==
   {c \in {[dest |-> "reg", len |-> l, chunk |-> ch, bmax |-> b, min |-> m[1], enforce |-> m[2], part |-> ~m[2],
            early |-> TRUE, refuse |-> TRUE, seek |-> s, decl |-> d, exists |-> e, loc |-> lo] :
             l \in lens, ch \in chunks, b \in bmaxs, m \in mins, s \in seeks, d \in decls, e \in exs, lo \in locs} :
-     (c.decl = "sizeminus" => c.len >= 2) /\ (c.decl \in {"none", "sizeonly"} => c.exists = "else")}
+     (c.decl \in Minus => c.len >= 2) /\ (c.decl \in NoDigest => c.exists = "else")}
 
 Oci(lens, decls) ==
   {c \in {[dest |-> "ocidir", len |-> l, chunk |-> 1, bmax |-> -1, min |-> 0, enforce |-> FALSE, part |-> FALSE,
            early |-> FALSE, refuse |-> FALSE, seek |-> FALSE, decl |-> d, exists |-> e, loc |-> "plain"] :
             l \in lens, d \in decls, e \in {"none", "repo"}} :
-     (c.decl = "sizeminus" => c.len >= 2) /\ (c.decl \in {"none", "sizeonly"} => c.exists = "none")}
+     (c.decl \in Minus => c.len >= 2) /\ (c.decl \in NoDigest => c.exists = "none")}
 
 QuickConfs == Reg(0..4, 1..3, {-1, 2}, {<<0, FALSE>>, <<2, TRUE>>}, BOOLEAN, Decls, {"else", "repo"}, {"query"})
               \cup Oci(0..3, Decls)
